@@ -1,7 +1,7 @@
 // Reads an input file with the library's own reader, builds the model exactly as the documented API sequence does
 // and prints (as hex doubles) the filled parameters and every public calculate_* value and sub-contribution,
 // for each (force-output, running-couplings) setting.  Used by C13 (reader reference model), C15 and C16.
-// usage: api_dump --format slha|gm2calc|thdm --file F [--params 1]
+// usage: api_dump --format slha|gm2calc|thdm --file F [--params 1] [--preload F0]
 #include "vh.hpp"
 #include "gm2_slha_io.hpp"
 #include "gm2_config_options.hpp"
@@ -80,6 +80,9 @@ int main(int argc, char** argv) {
    const bool params = a.getd("params", 0) != 0;
    // library warnings/errors go to stderr: keep them out of stdout, but report them per configuration
    GM2_slha_io io;
+   // --preload F0: the same reader object has read another file before (a driver looping over files)
+   const std::string preload = a.get("preload", "");
+   if (!preload.empty()) { try { io.read_from_source(preload); MSSMNoFV_onshell tmp; if (fmt == "slha") io.fill_slha(tmp); else if (fmt == "gm2calc") io.fill_gm2calc(tmp); } catch (const std::exception&) {} }
    try { io.read_from_source(file); } catch (const std::exception& e) { std::printf("E read %s %s\n", err_class(e), one_line(e.what()).c_str()); return 0; }
    if (fmt == "slha" || fmt == "gm2calc") {
       if (params) {
